@@ -197,6 +197,21 @@ func cmdCheck(repo, root string, args []string) int {
 		}
 		vac = append(vac, rep.Vacuity...)
 	}
+	for _, l := range w.Lemmas {
+		if !hasProp(l.Props, prop) {
+			continue
+		}
+		rep := w.VerifyLemma(l)
+		funcs = append(funcs, shortKey(rep.Key))
+		for a := range rep.Assumed {
+			assumed[a] = true
+		}
+		for _, e := range rep.Errors {
+			genErrs = append(genErrs, shortKey(rep.Key)+": "+e)
+		}
+		obls = append(obls, rep.Obls...)
+		vac = append(vac, rep.Vacuity...)
+	}
 	genS := time.Since(t0).Seconds() - loadS
 	if len(obls) == 0 && len(genErrs) == 0 {
 		return fault("no obligations generated for " + prop + " (vacuity guard)")
